@@ -74,6 +74,66 @@ theorem C08_prologue (S : Suite) (hL : S.HashLen) (hS : S.Sizes) (hE : S.EncLen)
   · exact C08_main S hL hS hE hD hpl av cI cR A B hA hB hi hr hp hm steps hlen hun (Or.inl hd) r h
   · exact Or.inl (Or.inl hc)
 
+/-- **Different protocol names.** `NoiseParams.name` is what gets hashed into the handshake and it
+    is a public, free-form field: two parties can run the same pattern, modifiers and primitives
+    under different name strings (the spellings `psk01` / `psk1`, or a name replaced after
+    parsing). If the two names differ and are both longer than the digest (hashed), or both at most
+    the digest length and equally long (zero-padded) -- every pair of valid Noise names of one
+    instance and suite except spellings of different length that are both at most `HASHLEN` bytes
+    long, see `C08_name_short_len` -- the unmodified handshake cannot complete with all calls
+    returning `ok`, or a witness is exhibited. -/
+theorem C08_name (S : Suite) (hL : S.HashLen) (hS : S.Sizes) (hE : S.EncLen) (hD : S.DecSound) (hpl : S.PubLen)
+    (av : Avail) (cI cR : BuildCfg) (A B : HS)
+    (hA : build S av cI = .ok A) (hB : build S av cR = .ok B)
+    (hi : cI.initiator = true) (hr : cR.initiator = false)
+    (hp : cI.pattern = cR.pattern) (hm : cI.mods = cR.mods)
+    (hne : cI.name ≠ cR.name)
+    (hc : (¬ cI.name.length ≤ S.hashLen ∧ ¬ cR.name.length ≤ S.hashLen) ∨
+          (cI.name.length ≤ S.hashLen ∧ cR.name.length ≤ S.hashLen ∧ cI.name.length = cR.name.length))
+    (steps : List MStep) (hlen : steps.length = A.msgs.length)
+    (hun : ∀ st ∈ steps, st.deliver = none)
+    (r : HS × HS × List Sent) (h : altRun S true A B steps = some r) :
+    Coll S ∨ AeadCollision S := by
+  have hn : (Sym.init S cI.name).h ≠ (Sym.init S cR.name).h ∨ HashCollision S := by
+    rcases hc with ⟨h1, h2⟩ | ⟨h1, h2, h3⟩
+    · unfold Sym.init
+      simp only [h1, h2, ↓reduceIte]
+      by_cases heq : S.hash cI.name = S.hash cR.name
+      · right; exact ⟨cI.name, cR.name, hne, heq⟩
+      · left; exact heq
+    · left
+      unfold Sym.init Bytes.padTo
+      simp only [h1, h2, ↓reduceIte]
+      intro heq
+      exact hne (List.append_inj_left heq h3)
+  rcases hn with hn | hcoll
+  · rcases div_built_name S hL av cI cR A B hA hB hi hr hp hn with hd | hc'
+    · exact C08_main S hL hS hE hD hpl av cI cR A B hA hB hi hr hp hm steps hlen hun (Or.inl hd) r h
+    · exact Or.inl (Or.inl hc')
+  · exact Or.inl (Or.inl hcoll)
+
+/-- Short names of DIFFERENT length (both at most `HASHLEN` bytes): zero padding maps them to
+    different blocks as soon as the longer one has a non-zero byte beyond the shorter one's end
+    (true of every valid Noise name: names contain no NUL byte). -/
+theorem C08_name_short_len (S : Suite) (hL : S.HashLen) (hS : S.Sizes) (hE : S.EncLen) (hD : S.DecSound) (hpl : S.PubLen)
+    (av : Avail) (cI cR : BuildCfg) (A B : HS)
+    (hA : build S av cI = .ok A) (hB : build S av cR = .ok B)
+    (hi : cI.initiator = true) (hr : cR.initiator = false)
+    (hp : cI.pattern = cR.pattern) (hm : cI.mods = cR.mods)
+    (h1 : cI.name.length ≤ S.hashLen) (h2 : cR.name.length ≤ S.hashLen)
+    (hpad : Bytes.padTo S.hashLen cI.name ≠ Bytes.padTo S.hashLen cR.name)
+    (steps : List MStep) (hlen : steps.length = A.msgs.length)
+    (hun : ∀ st ∈ steps, st.deliver = none)
+    (r : HS × HS × List Sent) (h : altRun S true A B steps = some r) :
+    Coll S ∨ AeadCollision S := by
+  have hn : (Sym.init S cI.name).h ≠ (Sym.init S cR.name).h := by
+    unfold Sym.init
+    simp only [h1, h2, ↓reduceIte]
+    exact hpad
+  rcases div_built_name S hL av cI cR A B hA hB hi hr hp hn with hd | hc'
+  · exact C08_main S hL hS hE hD hpl av cI cR A B hA hB hi hr hp hm steps hlen hun (Or.inl hd) r h
+  · exact Or.inl (Or.inl hc')
+
 /-- **A different psk in a used slot.** If some `psk n` token of the instance uses a slot on
     which the two configurations differ (a different key, or a key on one side only), the
     unmodified handshake cannot complete with all calls returning `ok`, or a witness is
@@ -193,6 +253,24 @@ example : ∀ A B, build S0 avAll cfgPI = .ok A → build S0 avAll cfgPR = .ok B
   have e2 : B = Lemmas.C12.builtState S0 cfgPR := Lemmas.C12.build_ok_state S0 avAll cfgPR B hB
   subst e1 e2
   decide +kernel
+
+/-- `C08_name`: the XX responder of `C03Main.Ex` under a protocol name of the same length that
+    differs in one byte. The hypotheses hold (both names are short and equally long), the
+    transcript hashes differ from the start, the first message still goes through and the
+    unmodified handshake does not complete. -/
+def cfgRn : BuildCfg := { cfgR with name := [78, 111, 105, 115, 102] }
+
+example : cfgI.name ≠ cfgRn.name ∧ cfgI.name.length ≤ S0.hashLen ∧ cfgRn.name.length ≤ S0.hashLen ∧
+    cfgI.name.length = cfgRn.name.length := by decide
+
+example : ∀ B, build S0 avAll cfgRn = .ok B →
+    (altRun S0 true i0 B [u1]).isSome = true ∧ altRun S0 true i0 B [u1, u2, u3] = none := by
+  intro B hB
+  have e2 : B = Lemmas.C12.builtState S0 cfgRn := Lemmas.C12.build_ok_state S0 avAll cfgRn B hB
+  subst e2
+  decide +kernel
+
+example : (build S0 avAll cfgRn).isOk = true := by decide +kernel
 
 end Ex
 
